@@ -29,6 +29,9 @@ LEVEL_TEXT = (
 )
 LEVEL_NOTE = "Trusted: the 15-line reference matcher in this file, vpchk/refs/hotp.py, Hypothesis."
 TECHNIQUE = "exhaustive small-world enumeration + Hypothesis + rule-based state machine against a reference matcher"
+#: thorough tier: seed-dependent tasks are repeated under this many derived seeds (run.py); the listed task functions enumerate fixed domains
+THOROUGH_REPS = 4
+DETERMINISTIC_FNS = ('t_small_world',)
 
 KEYS = [b"12345678901234567890", bytes(range(7, 39)), b"\x00\xff" * 10]
 _CLEAN = re.compile(r"\s|[-=]")
